@@ -732,7 +732,11 @@ class Variant(productmd.composeinfo.VariantBase):
         else:
             self.name = self.id
 
-        if self.type == "variant":
+        # pre-productmd trees have one level of children: the add-ons of a variant.
+        # Children do not look for children of their own - their sections are found
+        # by bare ID as well, so one section would describe variants on every level
+        # (2^depth of them) and [general]/addons would be inherited without end.
+        if self.type == "variant" and not addon:
             lookup = [
                 (section, "addons"),
                 (section, "variants"),
@@ -760,7 +764,7 @@ class Variant(productmd.composeinfo.VariantBase):
                 if not addon_uid.startswith("%s-" % self.uid):
                     addon_uid = "%s-%s" % (self.uid, addon_uid)
                 addon = Variant(self._metadata)
-                addon.deserialize(parser, addon_uid)
+                addon.deserialize(parser, addon_uid, addon=True)
                 # HACK: for RHEL 5 addons
                 addon.type = "addon"
                 self.add(addon)
